@@ -122,10 +122,10 @@ package layer2
 //@   ensures [content] len(result) == len(a.ips[meta.String()]) && (forall i int :: 0 <= i && i < len(result) ==> result[i] == a.ips[meta.String()][i])
 //@   modifies fresh []IPAdvertisement, $held
 //@ func (*Announce).GetInterfaces
-//@   lockonly
 //@   requires a != nil && lockstate(a.RWMutex) == 0
 //@   ensures lockstate(a.RWMutex) == 0 && lockframe(a.RWMutex)
-//@   modifies $held
+//@   ensures [noGuardedAlias] fresh(result) && len(result) == len(a.nodeInterfaces)
+//@   modifies fresh []string, $held
 // gratuitous (abstracted mode; lock discipline as before): an unsolicited announcement is sent only while some Service
 // still holds the address (reference count > 0), only on interfaces the advertisement covers, ARP for IPv4 / NDP otherwise
 //@ func (*Announce).gratuitous
